@@ -10,6 +10,11 @@ non-filtered destination, sends to a port where its destination was seen and whi
 any number of ports below OFPP_MAX (0xff00, the OpenFlow 1.0 bound on physical port numbers), any buffer-pool size,
 transparent or not; the per-arrival theorems below assume only `Inv`.
 
+Networks (`Net`, `netRun`): any number of switches with their own learning state, flow cache and pool, one clock, links
+between ports; `every_hop` and the `net_*` theorems restate every clause for every hop of every frame of every history.
+The model is parametric in repair C11-K1 (`Sw.relearn`, `Sw.dropInPort`): everything holds for both variants, and for the
+repaired one `Current` / `known_dst_fresh_repaired` give the "exactly the most recent port" clause without side condition.
+
 The ideal bridge is the ghost history `s.seen` (every (source, port) that arrived, most recent first);
 `seenPorts s d` are the ports on which `d` was seen as a source. -/
 namespace Pox.C11
